@@ -399,7 +399,7 @@ def execute_step(m: Machine, step, prop_of):
             if cs != cs2:
                 m.probe_hit("read_materialised_cache")
         elif op == "compute":
-            do_compute(m, step)
+            new.extend(do_compute(m, step) or ())
         else:
             raise HarnessError(f"unknown step op {op}")
     except Violation:
@@ -575,12 +575,31 @@ def do_compute(m: Machine, step):
         if not rs:
             return
         out = evo.result.merge_results(rs)
+        derived = []
         if len(rs) > 1:
             if any(out is r for r in rs):
                 raise Violation("C16", "merge-results-returned-input",
                                 op="merge_results")
             m.results[step["uid"]] = [out, snapshot_result(out)]
+            # the merged result carries (copies of) the first result's
+            # trajectories: they are derived objects like any other and join
+            # the pool, so that later operations on them are observed
+            for k, (name, traj) in enumerate(sorted(out.trajectories.items())):
+                src = rs[0].trajectories.get(name)
+                parent = find_same_object(m, src) if src is not None else None
+                if parent is None or len(m.entries) >= 7:
+                    continue
+                same = find_same_object(m, traj)
+                if same is not None:
+                    raise Violation("C16", "merged-result-aliases-input-"
+                                    "trajectory", obj=same.uid,
+                                    op="merge_results")
+                derived.append(add_entry(m, f"{step['uid']}.{k}", traj,
+                                         parent.model.copy(),
+                                         ("result_traj", parent.uid)))
+                m.probe_hit("merged_result_trajectory_in_pool")
         m.probe_hit("compute_merge_results")
+        return derived
     elif what == "result_io":
         rs = [m.results[u][0] for u in step.get("results", ())
               if u in m.results]
@@ -818,6 +837,8 @@ def gen_object_spec(rng, small=True):
     }
     if rng.random() < 0.25:
         profile["tzero"] = rng.choice(["first", "mid"])
+    if rng.random() < 0.12:
+        profile["flat"] = rng.choice([1, 2, 3])  # exactly planar positions
     spec = {"ctor": rng.choice(["se3", "xyzquat", "se3", "xyzquat", "all"]),
             "stamped": rng.random() < 0.7, "n": n,
             "data_seed": rng.getrandbits(32), "profile": profile}
